@@ -14,7 +14,11 @@ use vh::util::{count_strings_upto, nth_string};
 use vh::{run_main, Ctx, Local, Mismatch};
 
 const SIGMA: [&str; 7] = ["?", "#", "&", "=", "a", "b", "é"];
-const POOL: [&str; 7] = [
+/// second alphabet, explored one symbol shallower: an upper-case key (parameter names are
+/// compared exactly), and a multi-character key that gives a pattern-less removeparam rule an
+/// index token
+const SIGMA2: [&str; 9] = ["?", "#", "&", "=", "a", "b", "é", "A", "utm"];
+const POOL: [&str; 10] = [
     "*$removeparam=a",
     "*$removeparam=b",
     "||x.com^$removeparam=a,image",
@@ -22,7 +26,29 @@ const POOL: [&str; 7] = [
     "||x.com^$important",
     "@@||x.com^",
     "||x.com^",
+    "$removeparam=utm",
+    "*$removeparam=b,~xhr",
+    "*$removeparam=a,script,~image",
 ];
+
+/// Independent applicability of the pool's removeparam rules (written from the option semantics,
+/// not taken from the real matcher): the parameter a rule removes if it applies to (type, source).
+/// Every request of this check goes to host x.com.
+fn removes(rule: &str, ty: &str, src: &str) -> Option<&'static str> {
+    let default_types = ["document", "subdocument", "xhr"];
+    match rule {
+        "*$removeparam=a" if default_types.contains(&ty) => Some("a"),
+        "*$removeparam=b" if default_types.contains(&ty) => Some("b"),
+        "||x.com^$removeparam=a,image" if ty == "image" => Some("a"),
+        "*$removeparam=a,domain=y.com" if default_types.contains(&ty) && src.contains("://y.com") => Some("a"),
+        "$removeparam=utm" if default_types.contains(&ty) => Some("utm"),
+        "*$removeparam=b,~xhr" if ty == "document" || ty == "subdocument" => Some("b"),
+        // a positive type list is exhaustive; a negated type next to it cannot add request types
+        // (in particular not the removeparam defaults document / subdocument / xhr)
+        "*$removeparam=a,script,~image" if ty == "script" => Some("a"),
+        _ => None,
+    }
+}
 const TYPES: [&str; 5] = ["xhr", "document", "subdocument", "image", "script"];
 const SOURCES: [&str; 2] = ["https://x.com/", "https://y.com/"];
 const BASE: &str = "https://x.com/p";
@@ -82,6 +108,22 @@ fn check_one(s: &Subject, suffix: &str, ty: &str, src: &str, l: &mut Local) {
         (Some(g), false) if g.exception => "excepted-no-rewrite",
         _ => "untouched",
     });
+    // second, fully independent expectation for the rewritten URL: which rules apply is decided by
+    // `removes` above, not by the real matcher
+    if let Some(g) = &got {
+        let names: Vec<String> = s.texts.iter().filter_map(|r| removes(r, ty, src)).map(|n| n.to_string()).collect();
+        let blocked_important = s.texts.contains(&"||x.com^$important");
+        let exp = if blocked_important { None } else { ns::spec_removeparam(&url, &names) };
+        l.compared += 1;
+        if g.rewritten != exp {
+            l.mismatch(Mismatch {
+                sig: classify("rewritten-url.rule-applicability", &url),
+                what: format!("rules {:?} url {:?} type {} source {}: option semantics say the rewrite is {:?}, engine gave {:?}", s.texts, url, ty, src, exp, g.rewritten),
+                case: json!({"rules": s.texts, "suffix": suffix, "type": ty, "source": src}),
+                size: (suffix.len() * 10 + s.texts.len()) as u64,
+            });
+        }
+    }
     if let Some(field) = d {
         l.mismatch(Mismatch {
             sig: classify(&field, &url),
@@ -142,9 +184,34 @@ fn check(ctx: &Ctx) -> i32 {
             }
         });
     });
+    let n2 = n - 1;
+    ctx.bound("second_alphabet", json!(SIGMA2));
+    ctx.bound("second_alphabet_suffix_max_len", n2);
+    let total2 = count_strings_upto(SIGMA2.len() as u64, n2);
+    ctx.par_range("suffixes over the second alphabet", total2, 256, |i, l| {
+        let suffix = nth_string(i, &SIGMA2);
+        if !(suffix.contains('A') || suffix.contains("utm")) {
+            return; // already covered by the first sweep
+        }
+        SUBJECTS.with(|cell| {
+            let mut b = cell.borrow_mut();
+            if b.is_none() {
+                let v: Vec<Subject> = rule_sets(max_rules).iter().map(|t| build(t)).collect();
+                l.states += v.len() as u64;
+                *b = Some(v);
+            }
+            for s in b.as_ref().unwrap() {
+                for ty in TYPES {
+                    for src in SOURCES {
+                        check_one(s, &suffix, ty, src, l);
+                    }
+                }
+            }
+        });
+    });
     ctx.finish(
         "model_checking",
-        "URL = https://x.com/p + every string of length <= n over {?,#,&,=,a,b,é}; x every subset of <= 2 (quick) / <= 3 (thorough) rules of the 7-rule pool (engines built once per worker thread) x 5 request types x 2 initiators; non-trivial = the engine reported a rewritten URL; states = engines built, transitions = requests checked, every one compared byte for byte with the reference",
+        "URL = https://x.com/p + every string of length <= n over {?,#,&,=,a,b,é}; x every subset of <= 2 (quick) / <= 3 (thorough) rules of the 8-rule pool; a second sweep one symbol shallower over the alphabet extended with an upper-case key and the multi-character key `utm` (engines built once per worker thread) x 5 request types x 2 initiators; non-trivial = the engine reported a rewritten URL; states = engines built, transitions = requests checked, every one compared byte for byte with the reference",
         &["per-rule applicability is taken from the real public matcher (differential), the rewrite itself from the independent reference"],
     )
 }
